@@ -203,6 +203,36 @@ def s_gen_abandon(E):
     g.close()
 
 
+def _gen_cleanup(E):
+    @db_session
+    def gen():
+        a = E.A[1]
+        try:
+            yield a.val
+            yield 2
+        finally:
+            # the generator's own clean-up writes: when the consumer closes it early (GeneratorExit) or an
+            # exception that is not an Exception is thrown in, the session ends while it holds a transaction
+            a.val = 77
+            flush()
+    return gen()
+
+
+def s_gen_close_in_tx(E):
+    g = _gen_cleanup(E)
+    next(g)
+    g.close()
+
+
+def s_gen_throw_base(E):
+    g = _gen_cleanup(E)
+    next(g)
+    try:
+        g.throw(KeyboardInterrupt())
+    except KeyboardInterrupt:
+        pass
+
+
 def s_gen_throw(E):
     g = _gen(E)
     next(g)
@@ -356,6 +386,7 @@ SHAPES = {
     'ddl_create': s_ddl_create, 'ddl_drop': s_ddl_drop, 'ddl_user': s_ddl_user,
     'nested': s_nested, 'commit_more': s_commit_more, 'rollback_more': s_rollback_more,
     'generator': s_generator, 'gen_abandon': s_gen_abandon, 'gen_throw': s_gen_throw,
+    'gen_close_in_tx': s_gen_close_in_tx, 'gen_throw_base': s_gen_throw_base,
     'two_db': s_two_db, 'two_db_exc': s_two_db_exc, 'two_db_rollback': s_two_db_rollback, 'flush_error': s_flush_error, 'body_exc': s_body_exc, 'allowed_exc': s_allowed_exc,
     'raw': s_raw, 'write_then_read': s_write_then_read, 'get_conn': s_get_conn, 'for_update': s_for_update, 'retry': s_retry,
     'disconnect_between': s_disconnect_between, 'bulk_delete': s_bulk_delete, 'collection': s_collection,
